@@ -242,6 +242,21 @@ fn run_inner(case: &FifoCase, root: &Path) -> Result<Stats, (usize, String)> {
                         removed.iter().map(|t| t.id).collect::<Vec<_>>()
                     )));
                 }
+                // within the size limit only the TTL can justify a removal: a table that cannot have exceeded
+                // the TTL (clock read after the call) must stay ("drops only the oldest tables")
+                if ds <= limit_bytes {
+                    for r in &removed {
+                        if !possibly_expired(r) {
+                            return Err(err(format!(
+                                "FIFO removed table {} (created {}) although it had not exceeded the TTL {ttl_s:?} and the tree (disk_space() = {ds}) is within its limit {limit_bytes}",
+                                r.id, r.created_at
+                            )));
+                        }
+                    }
+                    if !removed.is_empty() && !retained.is_empty() {
+                        stats.bump("f.ttl_only_partial_drop");
+                    }
+                }
                 for r in &removed {
                     for k in &r.keys {
                         dropped_keys.insert(k.clone());
